@@ -17,6 +17,8 @@ ghost field Shard.gPostExtra int
 ghost field Shard.gList set[uint64]
 // the coordinator-side shardInfo built for this shard in the current cycle
 ghost field Shard.gInfo ref
+// the request object of the last successful POST of targets (what the sidecar was told: hashes, states, estimates)
+ghost field Shard.gLastPosted ref[UpdateTargetsRequest]
 // hashes of the target list that UpdateTarget is about to POST
 ghost global gPostedKeys set[uint64]
 
@@ -48,7 +50,9 @@ contract field Shard.APIPost(url, req, ret)
         && (result == nil ==> self.gList == gPostedKeys) && (result != nil ==> self.gList == old(self.gList)))
   ensures url == strconcat(self.url, "/api/v1/status/config") ==> (self.gPostCfg == old(self.gPostCfg) + 1 && self.gPostTargets == old(self.gPostTargets) && self.gPostExtra == old(self.gPostExtra) && self.gList == old(self.gList))
   ensures url == strconcat(self.url, "/api/v1/status/extra_config") ==> (self.gPostExtra == old(self.gPostExtra) + 1 && self.gPostTargets == old(self.gPostTargets) && self.gPostCfg == old(self.gPostCfg) && self.gList == old(self.gList))
-  modifies Shard.gPostTargets at {self}, Shard.gPostCfg at {self}, Shard.gPostExtra at {self}, Shard.gList at {self}
+  ensures whentype(req, "**tkestack.io/kvass/pkg/shard.UpdateTargetsRequest", (result == nil ==> self.gLastPosted == pointee(req)) && (result != nil ==> self.gLastPosted == old(self.gLastPosted)))
+  ensures url != strconcat(self.url, "/api/v1/shard/targets/") ==> self.gLastPosted == old(self.gLastPosted)
+  modifies Shard.gPostTargets at {self}, Shard.gPostCfg at {self}, Shard.gPostExtra at {self}, Shard.gList at {self}, Shard.gLastPosted at {self}
 
 // ---------- the client methods (verified against the HTTP layer) ----------
 // the cached copy made by TargetStatus: same keys, distinct objects, same states as the report (needUpdate compares
@@ -81,11 +85,13 @@ contract Shard.RuntimeInfo
 contract Shard.UpdateConfig
   requires r != nil && r.APIPost != nil
   ensures r.gPostCfg == old(r.gPostCfg) + 1 && r.gGets == old(r.gGets) && r.gPostTargets == old(r.gPostTargets) && r.gPostExtra == old(r.gPostExtra) && r.gList == old(r.gList)
+  ensures r.gLastPosted == old(r.gLastPosted)
   modifies Shard.gPostCfg at {r}
 
 contract Shard.UpdateExtraConfig
   requires r != nil && r.APIPost != nil
   ensures r.gPostExtra == old(r.gPostExtra) + 1 && r.gGets == old(r.gGets) && r.gPostTargets == old(r.gPostTargets) && r.gPostCfg == old(r.gPostCfg) && r.gList == old(r.gList)
+  ensures r.gLastPosted == old(r.gLastPosted)
   modifies Shard.gPostExtra at {r}
 
 // needUpdate: false only if the plan has exactly the cached keys, is not empty, and every planned state equals the cached one
@@ -117,7 +123,9 @@ contract Shard.UpdateTarget
   ensures[C01] @posted_list_contains_the_request (result == nil && r.gPostTargets != old(r.gPostTargets)) ==> (forall h in gListHashes[request.Targets] :: h in r.gList)
   ensures[C01] @no_post_keeps_the_list r.gPostTargets == old(r.gPostTargets) ==> r.gList == old(r.gList)
   ensures[C01] @failed_post_keeps_the_list result != nil ==> r.gList == old(r.gList)
-  modifies Shard.gPostTargets at {r}, Shard.gList at {r}, gPostedKeys
+  ensures[C05] @the_request_itself_is_what_the_sidecar_gets (result == nil && r.gPostTargets != old(r.gPostTargets)) ==> r.gLastPosted == request
+  ensures (result != nil || r.gPostTargets == old(r.gPostTargets)) ==> r.gLastPosted == old(r.gLastPosted)
+  modifies Shard.gPostTargets at {r}, Shard.gList at {r}, Shard.gLastPosted at {r}, gPostedKeys
   loop 1 invariant newTargets != nil && fresh(newTargets) && (forall h, t in newTargets :: t != nil)
   loop 1 invariant forall jb in visited1 :: forall t in request.Targets[jb] :: t.Hash in newTargets
   loop 1 invariant forall jb in visited1 :: jb in request.Targets
